@@ -329,3 +329,121 @@ func DescribeFont(f *type1.Font) string {
 	}
 	return fmt.Sprintf("font %s: %d glyphs, encoding=%s, date=%v, e.g. %s", f.FontInfo.FontName, len(f.Glyphs), enc, !f.CreationDate.IsZero(), strings.Join(names, ","))
 }
+
+// ---------------------------------------------------------------------------
+// accented composites (seac): the library's writer never emits them, so the
+// harness injects them into a no-eexec font file written by the library.
+
+func t1Int(v int) []byte {
+	switch {
+	case v >= -107 && v <= 107:
+		return []byte{byte(v + 139)}
+	case v >= 108 && v <= 1131:
+		v -= 108
+		return []byte{byte(247 + v>>8), byte(v)}
+	case v >= -1131 && v <= -108:
+		v = -v - 108
+		return []byte{byte(251 + v>>8), byte(v)}
+	}
+	return []byte{255, byte(v >> 24), byte(v >> 16), byte(v >> 8), byte(v)}
+}
+
+func csObfuscate(plain []byte) []byte {
+	r := uint16(4330)
+	in := append([]byte{'s', 'e', 'a', 'c'}, plain...) // lenIV = 4 lead bytes
+	out := make([]byte, len(in))
+	for i, p := range in {
+		c := p ^ byte(r>>8)
+		r = (uint16(c)+r)*52845 + 22719
+		out[i] = c
+	}
+	return out
+}
+
+// SeacFont draws a font file (no-eexec format) that contains 2-4 accented
+// composite glyphs, possibly nested (a composite whose base or accent is
+// itself a composite, referenced forwards or backwards in name order).
+func SeacFont(t *sim.Tape) ([]byte, string) {
+	f := GenFont(t, 5)
+	f.Encoding = make([]string, 256)
+	for i := range f.Encoding {
+		f.Encoding[i] = ".notdef"
+	}
+	var base []string
+	for _, n := range f.GlyphList() {
+		if n != ".notdef" && len(f.Glyphs[n].Cmds) > 0 {
+			base = append(base, n)
+		}
+	}
+	for len(base) < 2 {
+		n := fmt.Sprintf("base%d", len(base))
+		f.Glyphs[n] = GenGlyph(t, false)
+		if len(f.Glyphs[n].Cmds) == 0 {
+			f.Glyphs[n].MoveTo(10, 10)
+			f.Glyphs[n].LineTo(100, 10)
+			f.Glyphs[n].LineTo(50, 200)
+			f.Glyphs[n].ClosePath()
+		}
+		base = append(base, n)
+	}
+	code := map[string]int{}
+	for i, n := range base {
+		code[n] = 65 + i
+		f.Encoding[65+i] = n
+	}
+	compNames := []string{"Acomp", "Zcomp", "Mcomp", "aacute", "Ydieresis", "Bcomp"}
+	k := 2 + t.Choose(3)
+	var comps []string
+	for i := 0; i < k; i++ {
+		n := compNames[(t.Choose(len(compNames))+i)%len(compNames)]
+		for code[n] != 0 {
+			n += "x"
+		}
+		comps = append(comps, n)
+		code[n] = 200 + i
+		f.Encoding[200+i] = n
+		f.Glyphs[n] = &type1.Glyph{WidthX: float64(300 + 10*i)}
+	}
+	file, err := FontFile(f, type1.FormatNoEExec)
+	if err != nil {
+		return nil, "seac font outside the writer's domain"
+	}
+	all := append(append([]string{}, base...), comps...)
+	desc := "seac font:"
+	for i, n := range comps {
+		b, a := all[t.Choose(len(all))], all[t.Choose(len(all))]
+		var cs []byte
+		cs = append(cs, t1Int(0)...)
+		cs = append(cs, t1Int(300+10*i)...)
+		cs = append(cs, 13) // hsbw
+		cs = append(cs, t1Int(0)...)
+		cs = append(cs, t1Int(t.Range(-50, 200))...)
+		cs = append(cs, t1Int(t.Range(-50, 300))...)
+		cs = append(cs, t1Int(code[b])...)
+		cs = append(cs, t1Int(code[a])...)
+		cs = append(cs, 12, 6) // seac
+		cs = append(cs, 14)    // endchar
+		obf := csObfuscate(cs)
+		desc += fmt.Sprintf(" %s=seac(%s,%s)", n, b, a)
+		// replace the placeholder entry `/name L RD <L bytes> ND`
+		key := []byte("\n/" + n + " ")
+		at := bytes.Index(file, key)
+		if at < 0 {
+			continue
+		}
+		j := at + len(key)
+		l := 0
+		for j < len(file) && file[j] >= '0' && file[j] <= '9' {
+			l = l*10 + int(file[j]-'0')
+			j++
+		}
+		if !bytes.HasPrefix(file[j:], []byte(" RD ")) {
+			continue
+		}
+		end := j + 4 + l // end of the binary data
+		entry := []byte(fmt.Sprintf("\n/%s %d RD ", n, len(obf)))
+		entry = append(entry, obf...)
+		file = append(append(append([]byte{}, file[:at]...), entry...), file[end:]...)
+	}
+	return file, desc
+}
